@@ -181,6 +181,22 @@ def run(ctx):
         broken.append(("MCLzma2", "MCLzma2Var_unc_keeps_props.cfg", {}))     # needs 4 chunks to show
     for mod, cfg, e in broken:
         jobs.append(("broken:" + cfg, dict(module=mod, cfg=cfg, workers=2, timeout=900, env=e)))
+    # (V) lift tests/files into abstract files for the model (pure Python, glue only)
+    from harness.pydrv import c03lift as LF
+    repo = os.environ.get("VERIF_REPO", "/repo")
+    files = sorted(glob.glob(os.path.join(repo, "tests", "files", "*.xz")))
+    lifted = []
+    for path in files:
+        data = open(path, "rb").read()
+        try:
+            af, limit, outs, g = LF.lift(data)
+        except LF.CannotLift as e:
+            ctx.notes.append("tests/files/%s: not lifted into the model (%s)" % (os.path.basename(path), e))
+            continue
+        lifted.append((os.path.basename(path), dict(file=af, limit=len(data))))
+    lp = os.path.join(ctx.workdir, "c03files.json")
+    open(lp, "w").write("\n".join(json.dumps(e) for _, e in lifted) + "\n")
+    jobs.append(("EvalXz", dict(module="EvalXz", workers=1, timeout=600, env=dict(env, C03FILES=lp))))
     ctx.log("running %d TLC jobs" % len(jobs))
     res = run_tlc_jobs(ctx, jobs, par=5)
     for name, r in res.items():
@@ -243,11 +259,21 @@ def run(ctx):
     ctx.log("Xz: %d executions on %d (abstract file, flags) plans" % (n3, len(glist)))
     ctx.add_traces(len(glist) + len(items))
     probe_buffer_api(ctx, D, so)
-    repo = os.environ.get("VERIF_REPO", "/repo")
-    files = sorted(glob.glob(os.path.join(repo, "tests", "files", "*.xz")))
-    nv = run_phase(ctx, "testfiles", dict(files=files), None, so, shards=1)
-    ctx.log("tests/files: %d .xz files compared (verdict and decoded bytes)" % nv)
+    ep = plans_from_tlc(res["EvalXz"].out)
+    bykey = {}
+    for p in ep:
+        bykey.setdefault(json.dumps([p['file'], p['limit']], sort_keys=True), []).append(p)
+    model = {}
+    for name, e in lifted:
+        ps = bykey.get(json.dumps([e['file'], e['limit']], sort_keys=True))
+        if not ps:
+            raise MachineryError("EvalXz printed no verdict for the lifted %s" % name)
+        good = [p for p in ps if p['ret'] == "STREAM_END"]
+        model[name] = dict(rets=sorted(set(p['ret'] for p in ps)), out=(good[0]['out'] if good else []), pos=(good[0]['pos'] if good else 0), size=ps[0]['size'])
+    nv = run_phase(ctx, "testfiles", dict(files=files, model=model), None, so, shards=1)
+    ctx.log("tests/files: %d executions on %d .xz files (verdict and decoded bytes vs the independent judge; %d files lifted and judged by the decoder model)" % (nv, len(files), len(model)))
     ctx.extra["executions"] = n + n2 + n3 + nv
+    ctx.evaluations = n + n2 + n3 + nv
     ctx.sample(dict(kind="lz_plan", plan=pk[len(pk) // 2]))
     ctx.sample(dict(kind="lzma2_plan", plan=items[len(items) // 3]))
     ctx.assumptions += [
